@@ -53,6 +53,16 @@ PROPS["C12"] = dict(
     ],
 )
 
+PROPS["C13"] = dict(
+    level="exploration",
+    technique="property-based testing (rapid) with mutation of valid encodings and a dictionary of hostile lengths; oracle = no panic + allocation bound measured with runtime.MemStats; native Go fuzzing with the same oracle (thorough)",
+    level_text="Generated and mutated byte strings decoded by both decoders (normal and streaming) under an allocation budget proportional to the input; a process crash (fatal out-of-memory) is reported as a violation with the saved input.",
+    level_note="Allocation is measured as TotalAlloc delta of the single-threaded test and compared with 64x input length + 1 MiB; " + LIMITS,
+    units=[
+        U("inpkg", "rueidis", "TestVerif_C13_Malformed", T(20000), T(200000, shards=16), crash_is_violation=True, mem_gb=4),
+    ],
+)
+
 # ---- END PROPS (new entries go above this line)
 
 # every property without a check is listed here with its reason (kept current while building)
